@@ -174,13 +174,24 @@ func genConfig(t *rapid.T, o cfgOpts) emuConfig {
 	}
 	nb := int(c.GnbBitLen+7) / 8
 	id := drawBytes(t, nb, "gnb_id")
+	binary := rapid.IntRange(0, 3).Draw(t, "gnb_id_binary") == 2
 	for i := range id {
-		id[i] &= 0x7f
+		if !binary {
+			id[i] &= 0x7f
+		}
 	}
 	if pad := uint(nb*8) - uint(c.GnbBitLen); pad > 0 {
 		id[nb-1] &^= byte(1<<pad - 1)
 	}
-	c.GnbID = string(id)
+	if binary {
+		// any octets, written as a !!binary scalar
+		if rapid.Bool().Draw(t, "gnb_id_high") {
+			id[0] |= 0x80
+		}
+		c.GnbIDBin = hex.EncodeToString(id)
+	} else {
+		c.GnbID = string(id)
+	}
 	c.GnbName = drawPrintable(t, 1, 150, "gnb_name")
 	if rapid.IntRange(0, 2).Draw(t, "short_name") != 0 {
 		c.GnbName = drawPrintable(t, 1, 12, "gnb_name_s")
@@ -221,6 +232,20 @@ func drawSyntax(t *rapid.T) (s fileSyntax) {
 	s.DocStart = rapid.IntRange(0, 3).Draw(t, "doc_start") == 1
 	s.Indent = rapid.SampledFrom([]int{0, 0, 1, 4, 8}).Draw(t, "indent")
 	s.Kind = rapid.SampledFrom([]string{"", "", "", "symlink", "symlink-chain", "fifo"}).Draw(t, "file_kind")
+	if rapid.IntRange(0, 2).Draw(t, "extra_keys") == 1 {
+		names := []string{"src_iface", "dst_iface", "imsi", "amf_ip", "amf_port", "gnb_ip", "plmn", "ue_count", "opc_key", "gnb-id", "GNB_NAME", "Mcc", "sst_sd", "ue_registrations"}
+		n := rapid.IntRange(1, 4).Draw(t, "n_extra")
+		for i := 0; i < n; i++ {
+			k := rapid.SampledFrom(names).Draw(t, fmt.Sprintf("extra_key%d", i))
+			dup := false
+			for _, e := range s.Extra {
+				dup = dup || e[0] == k
+			}
+			if !dup {
+				s.Extra = append(s.Extra, [2]string{k, rapid.SampledFrom([]string{"enp0s8", "lo", "999", "001010000000099", "10.0.0.1", "decoy", "0", "ffffffffffffffffffffffffffffffff"}).Draw(t, fmt.Sprintf("extra_val%d", i))})
+			}
+		}
+	}
 	if rapid.Bool().Draw(t, "key_order") {
 		s.Order = rapid.Permutation([]int{0, 1, 2, 3, 4, 5, 6, 7, 8, 9, 10, 11, 12, 13, 14, 15, 16, 17, 18, 19, 20, 21, 22, 23}).Draw(t, "key_order_perm")
 	}
